@@ -5,5 +5,5 @@ CONSTANTS N = 3
  K = 0
  Wrap = FALSE
 SPECIFICATION TSpec
-INVARIANTS ObservedOutcome
+INVARIANTS ObservedOutcome ObservedTimelineSat
 CHECK_DEADLOCK FALSE
